@@ -508,7 +508,10 @@ func (t *Transition) emitSelfEvents() Result {
 			if t.IsAuto() && autoState {
 				targetStates := t.TargetStates()
 				idx := slices.Index(targetStates, s)
-				t.TargetIndexes = slices.Delete(t.TargetIndexes, idx, idx+1)
+				// (no indexes when the machine started disposing meanwhile)
+				if idx < len(t.TargetIndexes) {
+					t.TargetIndexes = slices.Delete(t.TargetIndexes, idx, idx+1)
+				}
 				targetStates = slices.Delete(targetStates, idx, idx+1)
 				t.cacheTargetStates.Store(&targetStates)
 			} else {
@@ -533,7 +536,10 @@ func (t *Transition) emitEnterEvents() Result {
 				// partial auto state acceptance
 				targetStates := t.TargetStates()
 				idx := slices.Index(targetStates, toState)
-				t.TargetIndexes = slices.Delete(t.TargetIndexes, idx, idx+1)
+				// (no indexes when the machine started disposing meanwhile)
+				if idx < len(t.TargetIndexes) {
+					t.TargetIndexes = slices.Delete(t.TargetIndexes, idx, idx+1)
+				}
 				targetStates = slices.Delete(targetStates, idx, idx+1)
 				t.cacheTargetStates.Store(&targetStates)
 			} else {
@@ -650,7 +656,10 @@ func (t *Transition) emitStateStateEvents() Result {
 					// already removed
 					continue
 				}
-				t.TargetIndexes = slices.Delete(t.TargetIndexes, idx, idx+1)
+				// (no indexes when the machine started disposing meanwhile)
+				if idx < len(t.TargetIndexes) {
+					t.TargetIndexes = slices.Delete(t.TargetIndexes, idx, idx+1)
+				}
 
 				// update cache
 				newAfter = slices.Delete(newAfter, idx, idx+1)
